@@ -17,12 +17,12 @@ func (l Lin) String() string {
 	}
 	return fmt.Sprintf("%d%+d·t", l.A, l.B)
 }
-func (l Lin) Const() bool      { return l.B == 0 }
-func (l Lin) At(t int64) int64 { return l.A + l.B*t }
-func (l Lin) Add(o Lin) Lin    { return Lin{l.A + o.A, l.B + o.B} }
-func (l Lin) Sub(o Lin) Lin    { return Lin{l.A - o.A, l.B - o.B} }
+func (l Lin) Const() bool       { return l.B == 0 }
+func (l Lin) At(t int64) int64  { return l.A + l.B*t }
+func (l Lin) Add(o Lin) Lin     { return Lin{l.A + o.A, l.B + o.B} }
+func (l Lin) Sub(o Lin) Lin     { return Lin{l.A - o.A, l.B - o.B} }
 func (l Lin) Scale(k int64) Lin { return Lin{l.A * k, l.B * k} }
-func K(n int64) Lin            { return Lin{n, 0} }
+func K(n int64) Lin             { return Lin{n, 0} }
 
 // INF is the width of a field that extends without bound (loop-carried unknowns, unknown-width values).
 const INF = int64(1) << 40
